@@ -90,16 +90,34 @@ Definition env_with (extra : symtab) (s : snapshot) : env :=
 Definition env_of (c : cpu) (s : snapshot) : env := env_with (cpu_entries c) s.
 
 (* ---------- the evaluator with the ram()/ram16() callbacks registered ---------- *)
-(* RamFn::apply after the argument was evaluated.  `read(a as u16, len)` slices the 64 KiB vector: a word read
-   at $FFFF is out of range (the process panics). *)
+(* TestRunnerMemoryAccessor::read(address, len): the bytes that exist in [address, address + len) -- a read that
+   would run past the end of the `ram_size`-byte array is cut short *)
+Fixpoint read_cells (m : ram) (a : Z) (n : nat) : list Z :=
+  match n with
+  | O => []
+  | S k => ram_read m a :: read_cells m (a + 1) k
+  end.
+Definition accessor_read (m : ram) (address len : Z) : list Z :=
+  let stop := Z.min (address + len) ram_size in
+  read_cells m address (Z.to_nat (stop - address)).
+
+(* RamFn::apply after the argument was evaluated: `read(a as u16, len)` with len 2 for ram16 and 1 for ram;
+   ram takes bytes.first(), ram16 needs bytes.first() and bytes.get(1) (no value when the word leaves the memory) *)
 Definition ram_fn (m : ram) (word : bool) (arg : eres) : eres :=
   match arg with
   | EVal (Some (SNum a)) =>
-      let a16 := a mod 65536 in
+      let a16 := a mod ram_address_space in
+      let bytes := accessor_read m a16 (if word then ram_word_len else ram_byte_len) in
       if word then
-        if a16 =? 65535 then EPanic
-        else EVal (Some (SNum (ram16_combine (ram_read m a16) (ram_read m (a16 + 1)))))
-      else EVal (Some (SNum (ram_read m a16)))
+        match bytes with
+        | lo :: hi :: _ => EVal (Some (SNum (ram16_combine lo hi)))
+        | _ => EVal None
+        end
+      else
+        match bytes with
+        | b :: _ => EVal (Some (SNum b))
+        | [] => EVal None
+        end
   | EVal _ => EVal None
   | EErr x => EErr x
   | EPanic => EPanic
